@@ -3,6 +3,7 @@ package engines
 import (
 	"encoding/json"
 	"fmt"
+	"strings"
 
 	"verif/harness/internal/scen"
 )
@@ -143,6 +144,14 @@ func judgeBatch(cs *BatchCase, o *BatchObs) []scen.Finding {
 			for i, s := range o.Slots {
 				if i < n && s.IsError && lastOK[i] {
 					add("C06", "slot-error-without-failure:"+cc, "result %d is an error (%s), but the last thing processing item %d did was to return a success (value of type implementing error: %v): the slot is not the outcome of processing that item", i, s.ErrText, i, i < len(cs.Items) && cs.Items[i].EVal)
+					break
+				}
+			}
+		}
+		if !cancelled && !cs.Stop {
+			for i, s := range o.Slots {
+				if i < n && s.IsError && strings.Contains(s.ErrText, "arrives as an error result") && !lastOK[i] && i < len(o.Attempts) && o.Attempts[i] == 0 {
+					add("C06", "slot-is-the-item-not-its-outcome:"+cc, "item %d was an error Result when prep handed it over; result %d is that very error (%s) although exec was never called for the item: the slot repeats the input instead of holding the outcome of processing it", i, i, s.ErrText)
 					break
 				}
 			}
